@@ -88,6 +88,7 @@ sorted_view_(nullptr)
 template<typename T, typename C, typename A>
 quantiles_sketch<T, C, A>& quantiles_sketch<T, C, A>::operator=(const quantiles_sketch& other) {
   quantiles_sketch<T, C, A> copy(other);
+  reset_sorted_view(); // release the cached view with the allocator that made it, before allocator_ changes
   std::swap(comparator_, copy.comparator_);
   std::swap(allocator_, copy.allocator_);
   std::swap(is_base_buffer_sorted_, copy.is_base_buffer_sorted_);
@@ -104,6 +105,9 @@ quantiles_sketch<T, C, A>& quantiles_sketch<T, C, A>::operator=(const quantiles_
 
 template<typename T, typename C, typename A>
 quantiles_sketch<T, C, A>& quantiles_sketch<T, C, A>::operator=(quantiles_sketch&& other) noexcept {
+  // the cached views do not travel: release each with the allocator that made it, before the allocators are swapped
+  reset_sorted_view();
+  other.reset_sorted_view();
   std::swap(comparator_, other.comparator_);
   std::swap(allocator_, other.allocator_);
   std::swap(is_base_buffer_sorted_, other.is_base_buffer_sorted_);
